@@ -159,6 +159,8 @@ def run(ctx):
   own.check_borrowed(ctx, fq, {'note_sequence': own.NS}, {}, ['note_sequence'])
   rank_in_sort_key(ctx, fi)       # location-independent rules first
   note_off_removes_one(ctx, fi)
+  threshold_scenarios(ctx, fi, 'THRESHOLD/scenarios')
+  restrike_paths(ctx, fi, 'BRANCH/restrike-paths')
   try:
     R = discover(ctx, fi)
   except Exception:
@@ -278,6 +280,144 @@ def note_off_removes_one(ctx, fi):
     rem = [c for c in ast.walk(loop) if isinstance(c, ast.Call) and isinstance(c.func, ast.Attribute) and c.func.attr == 'remove' and c.args and norm_text(c.args[0]) == ev]
     if rem:
       ctx.ob('BRANCH/note-off-removes-one', fi, rem[0], True, 'a note end removes that note only', construct='a note end removes exactly that note', definite=True)
+
+
+def _rank_alternatives(fi, expr, at, depth=0):
+  """[(conds, rank name | None)]: the values the rank component of an event tuple can take, each with the conditions under which
+  it is taken - a rank constant, a conditional expression, or a module-level helper applied to one argument (its returns with
+  their path conditions, the parameter replaced by the argument)."""
+  from sa import pathval
+  expr = U.expand_locals(fi.node, expr, at=at) if depth == 0 else expr
+  if isinstance(expr, ast.Name):
+    return [([], expr.id if expr.id in RANKS else None)]
+  if isinstance(expr, ast.IfExp):
+    return [([(expr.test, True)] + c, r) for c, r in _rank_alternatives(fi, expr.body, at, depth + 1)] + \
+           [([(expr.test, False)] + c, r) for c, r in _rank_alternatives(fi, expr.orelse, at, depth + 1)]
+  if isinstance(expr, ast.Call) and len(expr.args) == 1 and not expr.keywords and depth < 3:
+    g = fi.module.functions.get(dotted(expr.func) or '')
+    if g is not None and len(g.node.args.args) == 1:
+      env = {g.node.args.args[0].arg: expr.args[0]}
+      out = []
+      for r in U.walk_stmts(g.node, into_nested=False):
+        if isinstance(r, ast.Return):
+          conds = [(pathval.subst(U.expand_locals(g.node, t, at=r), env), p) for t, p in U.path_conditions(g.node, r)]
+          for c, rk in _rank_alternatives(fi, r.value, r, depth + 1):
+            out.append((conds + [(pathval.subst(t, env), p) for t, p in c], rk))
+      return out
+  return [([], None)]
+
+
+def threshold_scenarios(ctx, fi, rule):
+  """Location-independent: whichever way the pedal events are produced (two guarded appends, a conditional expression, a helper
+  that classifies the value, a comprehension), a sustain-controller event with value 64, 65 or 127 must become a pedal-down
+  event and one with 0 or 63 a pedal-up event.  The producers' guards are evaluated three-valued at those five values."""
+  from sa import pitfalls, scenario
+  fn = fi.node
+  alts = []
+  for t in ast.walk(fn):
+    if not (isinstance(t, ast.Tuple) and len(t.elts) == 3 and isinstance(t.elts[2], ast.Name) and isinstance(t.ctx, ast.Load)):
+      continue
+    v = t.elts[2].id
+    bound = False
+    for n in ast.walk(fn):
+      gens = [(n.target, n.iter)] if isinstance(n, ast.For) else [(g.target, g.iter) for g in getattr(n, 'generators', [])]
+      if any(isinstance(tg, ast.Name) and tg.id == v and norm_text(it).endswith('.control_changes') for tg, it in gens) and any(x is t for x in ast.walk(n)):
+        bound = True
+    if not bound:
+      continue
+    outer = [(U.expand_locals(fn, c, at=t), p) for c, p in pitfalls.guards_at(fn, t)]
+    # conditions that do not mention the control change say whether the sequence is processed at all, not how a value is classified
+    outer = [(c, p) for c, p in outer if any(isinstance(x, ast.Name) and x.id == v for x in ast.walk(c))]
+    for conds, rk in _rank_alternatives(fi, t.elts[1], t):
+      alts.append((t, v, outer + conds, rk))
+  if not alts:
+    ctx.ob(rule, fi, fn, False, 'no pedal event producer found', unknown='cannot classify: no event tuple built from a control change was found')
+    return
+  for val, want in ((0, '_SUSTAIN_OFF'), (63, '_SUSTAIN_OFF'), (64, '_SUSTAIN_ON'), (65, '_SUSTAIN_ON'), (127, '_SUSTAIN_ON')):
+    got, unk = [], []
+    for t, v, conds, rk in alts:
+      sub = {'%s.control_value' % v: nf.rat(U.E(repr(val))), '%s.control_number' % v: nf.rat(U.E('sustain_control_number'))}
+      r = scenario.tv_all(conds, sub) if conds else True
+      if r is None:
+        unk.append(t)
+      elif r:
+        got.append((t, rk))
+    cons = 'a sustain controller value of %d is a pedal-%s event' % (val, 'down' if want == '_SUSTAIN_ON' else 'up')
+    if unk:
+      why = 'cannot classify: the guards of %s cannot be evaluated at control_value == %d' % (norm_text(unk[0]), val)
+      ctx.ob(rule, fi, unk[0], False, why, construct=cons, unknown=why)
+    elif [rk for _t, rk in got] == [want]:
+      ctx.ob(rule, fi, got[0][0], True, 'value %d produces exactly one event, of kind %s' % (val, want), construct=cons)
+    elif any(rk is None for _t, rk in got):
+      why = 'cannot classify: the kind of the event produced for control_value == %d is not a rank constant' % val
+      ctx.ob(rule, fi, got[0][0], False, why, construct=cons, unknown=why)
+    else:
+      ctx.ob(rule, fi, got[0][0] if got else fn, False, 'a sustain controller event with value %d produces %s, not one %s event: %s' % (
+          val, ('events of kind ' + ', '.join(rk for _t, rk in got)) if got else 'no event at all', want,
+          'value 64 is the lowest pedal-down value (>= 64 is down)' if val == 64 else 'values below 64 release the pedal' if val < 64 else 'values of 64 and above press the pedal'),
+             construct=cons, definite=True)
+
+
+def restrike_paths(ctx, fi, rule):
+  """Location-independent, path-wise: in the note-start branch, the loop over the instrument's active notes may keep a note
+  untouched (append it to the surviving list without setting its end) only if its pitch differs from the new note's.  Every
+  path through the loop body is read (sa.pathval); a path that keeps the note without ending it is evaluated under the
+  scenarios "same pitch", "same pitch and the held note ends exactly here", "same pitch and it starts exactly here"."""
+  from sa import pathval, scenario
+  fn = fi.node
+  n = 0
+  for lp in ast.walk(fn):
+    if not (isinstance(lp, ast.For) and isinstance(lp.target, ast.Name)):
+      continue
+    conds = U.path_conditions(fn, lp)
+    if not any(p and isinstance(t, ast.Compare) and len(t.ops) == 1 and isinstance(t.ops[0], ast.Eq) and '_NOTE_ON' in (norm_text(t.left), norm_text(t.comparators[0])) for t, p in conds):
+      continue
+    v = lp.target.id
+    if not any(isinstance(x, ast.Attribute) and x.attr == 'pitch' and norm_text(x.value) == v for x in ast.walk(lp)):
+      continue
+    ev = None
+    for x in ast.walk(lp):
+      if isinstance(x, ast.Attribute) and x.attr == 'pitch' and norm_text(x.value) != v:
+        ev = norm_text(x.value)
+    tnames = [norm_text(st.value) for st in U.walk_stmts(lp) if isinstance(st, ast.Assign) and norm_text(st.targets[0]) == '%s.end_time' % v]
+    if ev is None or not tnames:
+      continue
+    T = tnames[0]
+    n += 1
+    cons = 're-strike: a held note of the same pitch is ended at the new onset'
+    try:
+      ps = pathval.paths(lp.body, effects=True)
+    except pathval.PathError as e:
+      why = 'cannot classify: the loop body is not a plain block (%s)' % e
+      ctx.ob(rule, fi, lp, False, why, construct=cons, unknown=why)
+      continue
+    verdicts = []
+    for pc, env, ended in ps:
+      calls = env.get(pathval.CALLS)
+      kept = calls is not None and any(isinstance(c.func, ast.Attribute) and c.func.attr == 'append' and c.args and norm_text(c.args[0]) == v for c in calls.elts)
+      ended_note = ('%s.end_time' % v) in env
+      if not kept or ended_note:
+        continue
+      for name, pairs in (('the same pitch', [('%s.pitch' % v, '%s.pitch' % ev)]),
+                          ('the same pitch and an end exactly at the new onset', [('%s.pitch' % v, '%s.pitch' % ev), ('%s.end_time' % v, T)]),
+                          ('the same pitch and a start exactly at the new onset', [('%s.pitch' % v, '%s.pitch' % ev), ('%s.start_time' % v, T)])):
+        r = scenario.tv_all(pc, scenario.subst_of(pairs)) if pc else True
+        verdicts.append((r, name, pc))
+    bad = [(nm, pc) for r, nm, pc in verdicts if r is True]
+    unk = [(nm, pc) for r, nm, pc in verdicts if r is None]
+    if bad:
+      nm, pc = bad[0]
+      ctx.ob(rule, fi, lp, False, 'a held note with %s as the new note takes the path [%s], on which it stays in the active list with its end untouched: with the pedal down '
+             'its own end is ignored, so it is held across the re-strike of its own pitch' % (nm, ' and '.join(('' if p else 'not ') + norm_text(t) for t, p in pc)),
+             construct=cons, definite=True)
+    elif unk:
+      why = 'cannot classify: whether a note with %s can take the keeping path [%s] is not decided' % (unk[0][0], ' and '.join(('' if p else 'not ') + norm_text(t) for t, p in unk[0][1]))
+      ctx.ob(rule, fi, lp, False, why, construct=cons, unknown=why)
+    else:
+      ctx.ob(rule, fi, lp, True, 'no path keeps a note of the same pitch without ending it (%d keeping paths read under three scenarios)' % (len(verdicts) // 3), construct=cons)
+  if n == 0:
+    why = 'cannot classify: no loop over held notes that compares pitches and sets an end time was found in the note-start branch'
+    ctx.ob(rule, fi, fn, False, why, construct='re-strike: a held note of the same pitch is ended at the new onset', unknown=why)
 
 
 def ranks(ctx, fi, R):
